@@ -39,10 +39,10 @@ const holdFinalizer = "verif.c11/hold"
 // ---- the API objects as the model sees them ----
 
 type NodeV struct {
-	Name, PID, Pool string
+	Name, PID, Pool  string
 	IType, Init, Reg bool
-	CPU, Mem        int64 // milli-cpu, Mi; 0 = key absent
-	Deleting        bool
+	CPU, Mem         int64 // milli-cpu, Mi; 0 = key absent
+	Deleting         bool
 }
 
 type ClaimV struct {
@@ -63,9 +63,9 @@ type PodV struct {
 	Vols       []string // pvc names or "empty"
 	AntiAff    bool
 	// derived by the real helper functions when the pod is written to the API
-	Cost     int64    // EvictionCost * 2^27
-	PortsRes []string // scheduling.GetHostPorts
-	VolsRes  []string // scheduling.GetVolumes
+	Cost                           int64    // EvictionCost * 2^27
+	PortsRes                       []string // scheduling.GetHostPorts
+	VolsRes                        []string // scheduling.GetVolumes
 	ReqCPU, ReqMem, LimCPU, LimMem int64
 }
 
